@@ -154,7 +154,7 @@ func (d *duplexHTTPCall) Read(data []byte) (int, error) {
 		return 0, fmt.Errorf("nil response from %v", d.request.URL)
 	}
 	n, err := d.response.Body.Read(data)
-	return n, wrapIfRSTError(err)
+	return n, wrapIfRSTError(wrapIfContextError(err))
 }
 
 func (d *duplexHTTPCall) CloseRead() error {
